@@ -4,7 +4,6 @@
 //! field added to the library is a compile error here rather than a silent gap.
 
 use std::collections::BTreeMap;
-use std::collections::HashMap;
 
 use cteepbd::types::*;
 use cteepbd::Components;
@@ -50,17 +49,19 @@ impl Flat {
         self.put(format!("{}.nren", pre), nren, p);
         self.put(format!("{}.co2", pre), co2, p);
     }
-    fn map_f<K: std::fmt::Display>(&mut self, pre: &str, m: &HashMap<K, f32>, p: i32) {
+    // the map helpers accept any map type (HashMap today): replacing it by an ordered map in the
+    // library is a neutral change and must not break the harness
+    fn map_f<'a, K: std::fmt::Display + 'a, I: IntoIterator<Item = (&'a K, &'a f32)>>(&mut self, pre: &str, m: I, p: i32) {
         for (k, v) in m {
             self.put(format!("{}.{}", pre, k), *v, p);
         }
     }
-    fn map_v<K: std::fmt::Display>(&mut self, pre: &str, m: &HashMap<K, Vec<f32>>, p: i32) {
+    fn map_v<'a, K: std::fmt::Display + 'a, I: IntoIterator<Item = (&'a K, &'a Vec<f32>)>>(&mut self, pre: &str, m: I, p: i32) {
         for (k, v) in m {
             self.vec(&format!("{}.{}", pre, k), v, p);
         }
     }
-    fn map_t<K: std::fmt::Display>(&mut self, pre: &str, m: &HashMap<K, RenNrenCo2>, p: i32) {
+    fn map_t<'a, K: std::fmt::Display + 'a, I: IntoIterator<Item = (&'a K, &'a RenNrenCo2)>>(&mut self, pre: &str, m: I, p: i32) {
         for (k, v) in m {
             self.t3(&format!("{}.{}", pre, k), v, p);
         }
